@@ -704,15 +704,20 @@ def signature(case, impl, models):
     """Label of the open finding that explains a mismatch against `repaired`.  The trace-shape heuristics below give
     the label directly in the common cases; where they cannot tell (a later consequence of an earlier deviation),
     the attribution is differential: the implementation's trace equals the model of /repo HEAD, and the finding
-    named is the first one without which the model no longer reproduces the trace."""
+    named is the first one without which the model no longer reproduces the trace.  vlib only asks for a signature
+    when some checked variant reproduces the trace; no checked variant has the flag of a fixed finding, so a
+    regression of a fixed finding never gets here."""
     sig = signature_b(case, impl, models) if case.startswith("B ") else signature_a(case, impl, models)
-    if not sig.startswith("other:"):
+    if sig == "none" or sig in OPEN.values():
         return sig
+    # "other:*" or the label of a finding that is fixed at HEAD (no checked variant has its flag): differential
     head = VARIANTS[1]
     if impl == models.get(head):
         for i in sorted(OPEN):
             if impl != models.get(_v(FIXED | {i})):
                 return OPEN[i]
+        # every single finding can be taken away: two of them explain the trace independently; name the first
+        return OPEN[min(OPEN)]
     else:
         match = [i for i in sorted(OPEN) if impl == models.get(_v(FIXED | {i}))]
         if match:
